@@ -13,7 +13,9 @@ namespace glm
 	template<length_t C, length_t R, typename T, typename U, qualifier Q>
 	GLM_FUNC_QUALIFIER mat<C, R, T, Q> mix(mat<C, R, T, Q> const& x, mat<C, R, T, Q> const& y, mat<C, R, U, Q> const& a)
 	{
-		return matrixCompMult(mat<C, R, U, Q>(x), static_cast<U>(1) - a) + matrixCompMult(mat<C, R, U, Q>(y), a);
+		// scalar - matrix is only declared for square matrices: build the all-ones matrix so that every shape compiles
+		mat<C, R, U, Q> const One(mat<C, R, U, Q>(static_cast<U>(0)) + static_cast<U>(1));
+		return matrixCompMult(mat<C, R, U, Q>(x), One - a) + matrixCompMult(mat<C, R, U, Q>(y), a);
 	}
 
 	template<length_t C, length_t R, typename T, qualifier Q, bool Aligned>
